@@ -216,6 +216,7 @@ class Kernel:
         self.state_probes = []           # callables returning small tuples describing primitive state
         self.abstract_states = set()
         self._fallback = False
+        self.early_timeouts_left = 0     # set by a workload: how many timeouts may fire although somebody else can run
         self._rng = choice.sched_rng()
         self._idle_set = set()           # tasks whose timeout fired since the last step of any other task
         self._idle_fires = 0
@@ -329,6 +330,10 @@ class Kernel:
         # strategy, which could keep choosing a polling task for ever)
         self._fallback = False
         if opts:
+            if timed and self.early_timeouts_left > 0:
+                # a timeout may also expire while others are merely slow: a few times per run (budget drawn by the plan)
+                # the waiting tasks join the ordinary candidates
+                return opts + timed
             return opts
         if deferred and timed:
             self._fallback = True
@@ -354,6 +359,10 @@ class Kernel:
                 c = opts[idx]
                 if me_first and idx != 0:
                     self.preemptions += 1
+            if not isinstance(c, InternalEvent) and c.timed and c.pred is not None and len(opts) > 1 \
+                    and not self._fallback and not c.pred():
+                self.early_timeouts_left -= 1
+                self.probe("timeout-fired-early")
             if not isinstance(c, InternalEvent) and c not in self._idle_set and self._idle_fires:
                 self._idle_set.clear()
                 self._idle_fires = 0
